@@ -350,7 +350,7 @@ class World:
             if self.hcmd is None:
                 raise HistoryDisabled(op)
             text = self.hcmd[0]._make_help_text(p.obj)
-            return [("hd", (None, self.hcmd[1], "std"), text, "hp")]
+            return [("hd", (None, self.hcmd[1], "std"), text, "hp", {"kept_ok": True})]
         if kind == "hnew":
             self.hcmd = (self.hdoc.HCommand(self.hdoc.HCommand._LEVEL_HH), self.global_spec)
             return []
@@ -365,25 +365,34 @@ class World:
         kw, key = self._how(p, how)
         key = (self.fmt_state.get(name),) + key
         if kind == "r":
-            return [(name, key, R.text_of(p.result(**kw)), "whole")]
+            return [(name, key, R.text_of(p.result(**kw)), "whole", {"kept_ok": True})]
         if name not in R.ITERABLE:
             raise HistoryDisabled(op)
         if kind == "l":
-            return [(name, key, R.lines_text(p.result(**kw)), "lines")]
+            return [self._finish([name, key, iter(p.result(**kw)), [], []], via="lines")]
         if kind in ("o", "o0"):
             it = iter(p.result(**kw))
-            ent = [name, key, it, []]
+            ent = [name, key, it, [], []]              # ..., kept line objects, their texts taken at once
             if kind == "o":
-                ent[3].append(R.line_text(next(it)))
+                ent[3].append(next(it))
+                ent[4].append(R.line_text(ent[3][-1]))
             self.open.append(ent)
             return []
         raise ValueError(op)
 
-    def _finish(self, ent):
-        name, key, it, got = ent
+    def _finish(self, ent, via="iter", leftover_only=False):
+        """Exhaust the iterator keeping the line objects; the text is read from the kept objects *after*
+        the iterator is exhausted and compared with the texts taken while iterating."""
+        name, key, it, keep, imm = ent
+        n_before = len(keep)
         for line in it:
-            got.append(R.line_text(line))
-        return (name, key, "\n".join(got), "iter")
+            keep.append(line)
+            imm.append(R.line_text(line))
+        late = [R.line_text(x) for x in keep]
+        info = {"kept_ok": late == imm, "leftover": len(keep) - n_before}
+        if not info["kept_ok"]:
+            info["imm"] = "\n".join(imm)
+        return (name, key, "\n".join(late), via, info)
 
     def finish_all(self):
         out = []
@@ -423,16 +432,12 @@ class World:
         for tag, (name, how) in (("a", a), ("b", b)):
             p = self._obj(name)
             kw, key = self._how(p, how)
-            ents[tag] = [name, (self.fmt_state.get(name),) + key, iter(p.result(**kw)), []]
+            ents[tag] = [name, (self.fmt_state.get(name),) + key, iter(p.result(**kw)), [], []]
         for tag in order:
             ent = ents[tag]
-            ent[3].append(R.line_text(next(ent[2])))
-        out = []
-        for tag in "ab":
-            ent = ents[tag]
-            leftover = [R.line_text(x) for x in ent[2]]
-            out.append((ent[0], ent[1], "\n".join(ent[3] + leftover), "merge:" + tag, len(leftover)))
-        return out
+            ent[3].append(next(ent[2]))
+            ent[4].append(R.line_text(ent[3][-1]))
+        return [self._finish(ents[tag], via="merge:" + tag) for tag in "ab"]
 
 
 _WORLD = None
